@@ -1,28 +1,153 @@
-"""Embedded positive examples: tiny sources on which zero-expected-count rules must fire.
+"""Embedded positive examples: tiny sources on which the detectors behind zero-expected-count rules must fire.
 
-Run by MANIFEST.setup_cmd and by every check that relies on such a rule.
+Several rules are expected to match nothing on a correct tree (no write to the model, no mutation of a global, no branch on
+the value equality of participants, no id flowing into a number, ...). A rule that matches nothing passes vacuously for ever,
+so the detectors they rely on are exercised here, on a ten-line synthetic package, by MANIFEST.setup_cmd before any check runs:
+each example must produce the event / tag / verdict the rules look for.
 """
 
 from __future__ import annotations
 
-import importlib
-import pkgutil
+import os
+import shutil
+import tempfile
+from dataclasses import replace
+
+SRC = '''
+import copy
+
+REGISTRY = []
+
+
+class R:
+    def __init__(self, mu, ident):
+        self.mu = mu
+        self.id = ident
+
+    def __eq__(self, other):
+        return self.mu == other.mu
+
+
+class M:
+    def __init__(self):
+        self.tau = 1.0
+
+    def writes_model(self, a):
+        self.tau = 2.0
+        return a.mu
+
+    def mutates_global(self, a):
+        REGISTRY.append(a)
+        return a.mu
+
+    def branches_on_value_equality(self, a, b):
+        if a == b:
+            return 1
+        return 0
+
+    def looks_up_by_value(self, a, xs):
+        return xs.index(a)
+
+    def id_into_number(self, a):
+        if a.id == "x":
+            a.mu = a.mu + 1.0
+        return a.mu
+
+    def sorts(self, x, y):
+        return sorted([y, x])
+
+    def unknown_positions(self, xs):
+        return xs[0] - xs[0]
+'''
+
+
+def _world():
+    from .ai.engine import Interp
+    from .ai.expr import Frame
+    from .ai.state import State
+    from .frontend import Program
+
+    d = tempfile.mkdtemp(prefix="osv_posex_", dir="/dev/shm" if os.path.isdir("/dev/shm") else None)
+    os.makedirs(os.path.join(d, "posex"))
+    with open(os.path.join(d, "posex", "__init__.py"), "w") as fh:
+        fh.write(SRC)
+    prog = Program(root=d, package="posex")
+    mi = prog.modules["posex"]
+    I = Interp(prog)
+    st = State()
+    I._fid += 1
+    top = Frame(I._fid, None, None, mi, mi.tree, "<selfcheck>")
+    I.frames[top.fid] = top
+    I.stack.append(top)
+    return d, prog, mi, I, st
+
+
+def _examples():
+    from .ai.values import Bool, Num, Ptr, Str
+
+    d, prog, mi, I, st = _world()
+    try:
+        M, R = mi.classes["M"], mi.classes["R"]
+        m = I.instantiate(M, [], {}, M.node, st)
+        st.heap[m.loc] = replace(st.heap[m.loc], origin="input:model")
+
+        def rating(tag):
+            p = I.instantiate(R, [Num(kinds=frozenset({"float"}), prov=frozenset({"MU"}), sym=("param", tag)), Str(None, frozenset({"ID"}))], {}, R.node, st)
+            st.heap[p.loc] = replace(st.heap[p.loc], origin="input:player")
+            return p
+
+        a, b = rating("a"), rating("b")
+
+        def call(name, args):
+            I.events.clear()
+            s2 = st.copy()
+            fv = I.load_attr(m, name, M.node, s2)
+            r = I.call_value(fv, args, {}, M.node, s2)
+            return r, s2, list(I.events)
+
+        _, _, ev = call("writes_model", [a])
+        yield "write to the model object is an effect event (C14 R14.1, C15 R15.4)", any(e.kind == "write" and e.data["origin"] == "input:model" and e.data["field"] == "tau" for e in ev), str([e.kind for e in ev])
+        _, _, ev = call("mutates_global", [a])
+        yield "mutation of a module-level container is an effect event (C14 R14.2)", any(e.kind == "mutate" and str(e.data["origin"]).startswith("global:") for e in ev), str([(e.kind, e.data.get("origin")) for e in ev if e.kind == "mutate"])
+        _, _, ev = call("branches_on_value_equality", [a, b])
+        yield "branch on the value equality of two objects carries VALEQ (R7.10, R9.6, R10.4, R11.5)", any(e.kind == "branch" and "VALEQ" in e.data["prov"] for e in ev), str([sorted(e.data["prov"]) for e in ev if e.kind == "branch"])
+        xs = I.new_list(st, [a, b], M.node)
+        _, _, ev = call("looks_up_by_value", [a, xs])
+        yield "list.index on rating objects is a value-equality lookup (C02 R2.8)", any(e.kind == "valeq-lookup" for e in ev), str([e.kind for e in ev])
+        _, _, ev = call("id_into_number", [a])
+        yield "a number stored under a test of the id carries ID (C14 R14.3, C20 R20.5)", any(e.kind == "write" and e.data["field"] == "mu" and "ID" in getattr(e.data.get("val"), "prov", ()) for e in ev), str([(e.kind, sorted(getattr(e.data.get("val"), "prov", ()))) for e in ev if e.kind == "write"])
+        x = Num(kinds=frozenset({"float"}), sym=("param", "x"))
+        y = Num(kinds=frozenset({"float"}), sym=("param", "y"))
+        st.rel_set(x.sym, y.sym, frozenset({"LT"}))
+        r, s2, _ = call("sorts", [x, y])
+        sq = I.to_seq(r, s2, M.node)
+        yield "a short explicit list is sorted concretely under assumed relations (R11.4, R4.5)", sq is not None and sq.fixed is not None and [v.sym for v in sq.fixed] == [x.sym, y.sym], str(sq)
+        from .ai.values import STAR, Seq, Length
+        from .poly import to_poly
+
+        star_elem = Num(kinds=frozenset({"float"}), sym=("in", "IN.player", "mu", (STAR, STAR)))
+        zs = I.new_list_from_seq(st, Seq(Length(None, 2, 8), star_elem, "k"), M.node)
+        r, _, _ = call("unknown_positions", [zs])
+        p = to_poly(r.sym) if isinstance(r, Num) and r.sym is not None else None
+        yield "terms at unknown positions do not cancel (soundness of every normal-form rule)", p is None or p != {}, str(p)
+    finally:
+        shutil.rmtree(d, ignore_errors=True)
 
 
 def main() -> int:
-    from . import rules
-
     failures = 0
     ran = 0
-    for m in pkgutil.iter_modules(rules.__path__):
-        mod = importlib.import_module(f"osv.rules.{m.name}")
-        fn = getattr(mod, "positive_examples", None)
-        if fn is None:
-            continue
-        for name, ok, msg in fn():
+    try:
+        for name, ok, msg in _examples():
             ran += 1
             if not ok:
                 failures += 1
-                print(f"SELFCHECK-FAIL {m.name}:{name}: {msg}")
+                print(f"SELFCHECK-FAIL {name}: {msg[:300]}")
+    except Exception as e:  # an example that cannot even be evaluated is a failure of the machinery
+        import traceback
+
+        traceback.print_exc()
+        print(f"SELFCHECK-FAIL exception {type(e).__name__}: {e}")
+        return 2
     print(f"selfcheck: {ran} embedded examples, {failures} failures")
-    return 0 if failures == 0 else 2
+    return 0 if failures == 0 and ran >= 7 else 2
